@@ -13,6 +13,7 @@ func init() { register("C19", checkC19) }
 
 func checkC19(c *Ctx, r *Report, tier string) {
 	round5(c, r, "C19")
+	round6(c, r, "C19")
 	r.Rule("C19.R1", "heap.Interface contract of both queue types: Less is a strict comparison of the priorities of elements i and j whose direction matches the constructor (NewMin… ⇒ <, NewMax… ⇒ >); Swap exchanges exactly i and j; Push appends its argument; Pop returns the last element and shrinks by one; Len is len; the wrapper's Push/Pop go through container/heap on the wrapped queue and Peek reads index 0", 13)
 	r.Rule("C19.R3", "the ordering direction of a queue is fixed by its constructor: the wrapped heap is stored only into freshly allocated queues", 1)
 	queueKindFixedAtConstruction(c, r, "C19.R3")
@@ -86,9 +87,15 @@ func checkC19(c *Ctx, r *Report, tier string) {
 		r.Check(ok, "C19.R1", fnName(ln), "Len", c.Pos(ln.Pos()), why)
 		push := c.Method("utils", tn, "Push")
 		ok, why = pushAppends(push)
+		if !ok && pushAppendsSym(push) {
+			ok, why = true, "*pq = append(*pq, val), through a helper that returns the appended slice"
+		}
 		r.Check(ok, "C19.R1", fnName(push), "Push", c.Pos(push.Pos()), why)
 		pop := c.Method("utils", tn, "Pop")
 		ok, why = popRemovesLast(pop)
+		if !ok && popRemovesLastSym(pop) {
+			ok, why = true, "returns old[len-1], stores old[0:len-1], through a helper that returns both"
+		}
 		r.Check(ok, "C19.R1", fnName(pop), "Pop", c.Pos(pop.Pos()), why)
 	}
 	// wrapper
@@ -261,6 +268,25 @@ func freshSliceSeen(v ssa.Value, seen map[ssa.Value]bool) (bool, string) {
 func swapExchanges(f *ssa.Function) (bool, string) {
 	if f == nil || len(f.Params) != 3 {
 		return false, "Swap not found"
+	}
+	// delegation: the method's only effect is one call of a helper with (queue, i, j) in this order
+	{
+		nStores, nCalls := 0, 0
+		var del *ssa.Call
+		eachInstr(f, func(in ssa.Instruction) {
+			if _, ok := in.(*ssa.Store); ok {
+				nStores++
+			}
+			if cl, ok := in.(*ssa.Call); ok && cl.Call.StaticCallee() != nil && modLocal(cl.Call.StaticCallee()) {
+				nCalls++
+				del = cl
+			}
+		})
+		if nStores == 0 && nCalls == 1 && len(del.Call.Args) == 3 && len(del.Call.StaticCallee().Params) == 3 &&
+			strip(del.Call.Args[0]) == ssa.Value(f.Params[0]) && strip(del.Call.Args[1]) == ssa.Value(f.Params[1]) && strip(del.Call.Args[2]) == ssa.Value(f.Params[2]) {
+			ok, why := swapExchanges(del.Call.StaticCallee())
+			return ok, why + " (in " + del.Call.StaticCallee().Name() + ")"
+		}
 	}
 	pq, i, j := ssa.Value(f.Params[0]), ssa.Value(f.Params[1]), ssa.Value(f.Params[2])
 	elem := func(a ssa.Value) ssa.Value { // index of IndexAddr(pq, idx)
@@ -490,4 +516,122 @@ func queueKindFixedAtConstruction(c *Ctx, r *Report, rule string) {
 	} else {
 		r.OK(rule, "utils.priorityQueue", "kind-fixed-at-construction", "-", fmt.Sprintf("%d store(s) to the wrapped heap, all into a freshly allocated queue (constructors)", n))
 	}
+}
+
+// ---- a small symbolic reading of slice expressions, through pure helper functions -------------------------------------------
+
+// symExpr renders v as an expression over the function's parameters: loads, len, slicing, indexing, append and x-1, with the
+// results of small module-local helpers replaced by what they return for these arguments. Two values with the same rendering
+// are the same expression.
+func symExpr(v ssa.Value, env map[*ssa.Parameter]string, depth int) string {
+	if depth > 8 || v == nil {
+		return "?"
+	}
+	v = strip(v)
+	switch y := v.(type) {
+	case *ssa.Parameter:
+		if s, ok := env[y]; ok {
+			return s
+		}
+		return "param:" + y.Name()
+	case *ssa.Const:
+		if y.Value == nil {
+			return "nil"
+		}
+		return y.Value.ExactString()
+	case *ssa.UnOp:
+		if y.Op == token.MUL {
+			if ia, ok := y.X.(*ssa.IndexAddr); ok {
+				return "index(" + symExpr(ia.X, env, depth+1) + "," + symExpr(ia.Index, env, depth+1) + ")"
+			}
+			if al, ok := y.X.(*ssa.Alloc); ok {
+				if st := storesTo(al.Parent(), al); len(st) == 1 {
+					return symExpr(st[0].Val, env, depth+1)
+				}
+			}
+			return "deref(" + symExpr(y.X, env, depth+1) + ")"
+		}
+	case *ssa.Slice:
+		lo, hi := "0", "end"
+		if y.Low != nil {
+			lo = symExpr(y.Low, env, depth+1)
+		}
+		if y.High != nil {
+			hi = symExpr(y.High, env, depth+1)
+		}
+		return "slice(" + symExpr(y.X, env, depth+1) + "," + lo + "," + hi + ")"
+	case *ssa.BinOp:
+		return "(" + symExpr(y.X, env, depth+1) + y.Op.String() + symExpr(y.Y, env, depth+1) + ")"
+	case *ssa.Extract:
+		if cl, ok := y.Tuple.(*ssa.Call); ok {
+			return symCall(cl, y.Index, env, depth)
+		}
+	case *ssa.Call:
+		return symCall(y, 0, env, depth)
+	}
+	return "?" + v.Name()
+}
+
+func symCall(cl *ssa.Call, idx int, env map[*ssa.Parameter]string, depth int) string {
+	id := callID(&cl.Call)
+	if id.Pkg == "builtin" {
+		switch id.Name {
+		case "len":
+			return "len(" + symExpr(cl.Call.Args[0], env, depth+1) + ")"
+		case "append":
+			s := "append(" + symExpr(cl.Call.Args[0], env, depth+1)
+			for _, e := range flatArgs(&cl.Call)[1:] {
+				s += "," + symExpr(e, env, depth+1)
+			}
+			return s + ")"
+		}
+	}
+	g := cl.Call.StaticCallee()
+	if g == nil || !modLocal(g) || len(g.Blocks) == 0 {
+		return "?call"
+	}
+	rets := returnsOf(g)
+	if len(rets) != 1 || idx >= len(rets[0].Results) {
+		return "?call"
+	}
+	sub := map[*ssa.Parameter]string{}
+	for k, p := range g.Params {
+		if k < len(cl.Call.Args) {
+			sub[p] = symExpr(cl.Call.Args[k], env, depth+1)
+		}
+	}
+	return symExpr(rets[0].Results[idx], sub, depth+1)
+}
+
+func pushAppendsSym(f *ssa.Function) bool {
+	if f == nil || len(f.Params) != 2 {
+		return false
+	}
+	st := storesTo(f, f.Params[0])
+	if len(st) != 1 {
+		return false
+	}
+	r := "param:" + f.Params[0].Name()
+	return symExpr(st[0].Val, nil, 0) == "append(deref("+r+"),param:"+f.Params[1].Name()+")"
+}
+
+func popRemovesLastSym(f *ssa.Function) bool {
+	if f == nil || len(f.Params) != 1 {
+		return false
+	}
+	st := storesTo(f, f.Params[0])
+	if len(st) != 1 {
+		return false
+	}
+	d := "deref(param:" + f.Params[0].Name() + ")"
+	last := "(len(" + d + ")-1)"
+	if symExpr(st[0].Val, nil, 0) != "slice("+d+",0,"+last+")" {
+		return false
+	}
+	for _, rt := range returnsOf(f) {
+		if len(rt.Results) != 1 || symExpr(rt.Results[0], nil, 0) != "index("+d+","+last+")" {
+			return false
+		}
+	}
+	return true
 }
